@@ -191,7 +191,8 @@ CHECKS["C13"] = dict(
 CHECKS["C12"] = dict(
     technique="TLA+ interpreter of the compiler-configuration language (CompilerCfg.Parse) + implementation model of "
               "the per-process compiler table processing a history of commands (GenCompilerCfg), checked by TLC; "
-              "TLC-simulated configurations x histories replayed into config.ArgumentParser in one process",
+              "TLC-simulated configurations x histories replayed into config.ArgumentParser in one process; recorded "
+              "parse_args executions (hook event ParseArgs; incl. the repository's test suite) validated by Trace_Cfg.tla",
     text="TLC checks on simulated configurations and command histories that every command's result equals the "
          "interpreter's result on the original table (history independence) and that alias resolution always ends in ok / "
          "loop / unknown target; each generated .cbi/config (three custom actions, defaults, override, implicit options, "
